@@ -116,3 +116,15 @@ Theorem example_session :
   map snd (session (ex_sts 2%N) [Validate; Mutate (fun _ => ex_sts 3%N); Validate; Mutate (fun _ => ex_sts 1%N); Validate])
   = [Ok; Err ETopology; Ok].
 Proof. vm_compute. reflexivity. Qed.
+
+(* a service with a DECLARED site 1 is emptied and connected again on a node at site 2: rejected (the declared site
+   survives the disconnection; only set_property or validate's inference ever write it) *)
+Definition ex_bridge (sites : list N) : slice :=
+  mk_slice [] [mk_asvc "L2Bridge" (Some 1%N) []
+                 (map (fun a => mk_if "ServicePort" None (Some [mk_ep "DedicatedPort" (Some (Some a))])) sites)].
+Theorem example_reconnect :
+  map snd (session (ex_bridge [1%N]) [Validate; Mutate (fun _ => ex_bridge []); Validate;
+                                      Mutate (fun _ => ex_bridge [2%N]); Validate;
+                                      Mutate (fun _ => ex_bridge [1%N; 1%N]); Validate])
+  = [Ok; Err ETopology; Err ETopology; Ok].
+Proof. vm_compute. reflexivity. Qed.
